@@ -7,8 +7,10 @@
    applying the position-defined meaning of each filter in sequence, pos the offset of the last entry
    consumed; read examines the entries of S beyond pos in order. *)
 From Coq Require Import ZArith List Bool Sorted.
+From Coq Require Import NArith.
+From FEC Require Import Models.FastIndexerM Proofs.FastIndexerSpecP Models.FileIndexIOM Models.SystemLinkM Proofs.FileIndexIOP.
 From FEC Require Import Generated.LogReaderConsts Models.FileIndexOpsM Models.LogReaderM
-  Proofs.FileIndexOpsP Proofs.LogCursorP Proofs.LogReaderInitP Proofs.LogReaderExamplesP.
+  Proofs.FileIndexOpsP Proofs.LogCursorP Proofs.LogReaderInitP Proofs.LogReaderExamplesP Proofs.LogReaderLinkP.
 Import ListNotations.
 Open Scope Z_scope.
 
@@ -70,3 +72,26 @@ Theorem C11_legacy_refuted :
   run_script legacy ex_cfg_p ex_file None legacy_script_2 <> Ok (spec_script ex_cfg_p ex_file None legacy_script_2).
 Proof. exact legacy_cursor_refuted. Qed.
 Print Assumptions C11_legacy_refuted.
+
+(* ---- from FILE BYTES (Proofs/LogReaderLinkP.v; see Properties/C10.v for log_of_file / file_of / opened_index) ----
+   For the bytes d of any log file whose P1 times do not decrease, opened through fast_generate_index (index file absent,
+   present, stale or ignored; fast indexer with any worker count; C08's 16 KiB precondition), the reader holds the fresh
+   index of d, which is the index the model starts from, the log is the list of frames of C08's SPEC scan, and every
+   operation sequence produces the results of the cursor SPEC over it. *)
+Theorem C11_cursor_from_file_bytes : forall READ MAX : N,
+  (2 <= READ)%N -> (READ mod 2 = 0)%N -> (24 <= MAX)%N -> (MAX <= READ)%N ->
+  forall (ptime : N -> N -> list N -> option (N * N)) (W : N), (1 <= W)%N ->
+  forall p1i d ig c srcs ops,
+  fi_small_msgs MAX d -> plausible_index (p1_of_ptime ptime) p1i d -> c_max_bytes c = None -> p1_times_sorted (p1_of_ptime ptime) d ->
+  exists idx, opened_index READ MAX ptime W load p1i d ig = Some idx /\
+    findex_of idx = index_of_file (file_of (p1_of_ptime ptime) d) (c_max_bytes c) /\
+    log_of_file (p1_of_ptime ptime) d = map (msg_of_frame (p1_of_ptime ptime)) (fi_spec_frames d) /\
+    run_script fixed c (file_of (p1_of_ptime ptime) d) srcs ops = Ok (spec_script c (file_of (p1_of_ptime ptime) d) srcs ops).
+Proof. exact script_through_open. Qed.
+Print Assumptions C11_cursor_from_file_bytes.
+
+(* the same for any byte string at the level of the scan alone (no indexer precondition, any max_bytes) *)
+Theorem C11_cursor_on_file_log : forall p1 d c srcs ops,
+  p1_times_sorted p1 d -> run_script fixed c (file_of p1 d) srcs ops = Ok (spec_script c (file_of p1 d) srcs ops).
+Proof. exact script_on_file. Qed.
+Print Assumptions C11_cursor_on_file_log.
